@@ -9,11 +9,15 @@ def run(tier):
     if tier == "quick":
         mc = ["MC_Collection_c02.cfg"]
         plan = [("backfill", 3, 8, ALL, "crash", 0.3),
+                ("multi", 6, 12, ALL, "clean", 0.3),
+                ("multi", 1, 8, ALL, "crash", 0.3),
                 ("unique", 12, 14, ALL, "clean", 0.4),
                 ("crud", 12, 14, ALL + ["ext"], "clean", 0.3)]
     else:
         mc = ["MC_Collection_c02.cfg", "MC_Collection_thorough.cfg"]
         plan = [("backfill", 40, 10, ALL, "crash", 0.3),
+                ("multi", 100, 16, ALL, "clean", 0.3),
+                ("multi", 20, 10, ALL, "crash", 0.3),
                 ("unique", 40, 10, ALL, "crash", 0.4),
                 ("unique", 200, 20, ALL, "clean", 0.4),
                 ("crud", 200, 20, ALL + ["ext"], "clean", 0.3)]
@@ -24,7 +28,9 @@ def run(tier):
         "after every reopen the driver observes ids/len/get for all ids and asks every index about every key, "
         "token and vector of the universe; the observation must equal the spec state (both directions: phantoms "
         "and holes). distinct_nontrivial = distinct crash points + clean workload groups",
-        ["index value universe: 3 unique keys, 2 non-unique keys, 3 tokens, one vector per value",
+        ["index value universe: 3 unique keys, 2 non-unique keys, 3 tokens, one vector per value, one multi-field "
+         "index (a, b) with a distinct key per value; updates of the sequential drivers send only the fields that "
+         "change (subsets of the member fields of the multi-field index included)",
          "array / map-keyed index fields are exercised by C03/C10 drivers, not here"])
 
 
